@@ -2,15 +2,20 @@ SPECIFICATION GSpec
 CONSTANTS
   Cons = {"s1", "s2"}
   Healthy = {"h"}
+  Other = {"hb"}
   N = 3
   HCap = 64
   Parts = 1
+  ElemParts = 1
   WsMode = FALSE
-  MaxPub = 4
-  MaxRead = 3
+  EnqAcct = FALSE
+  HasDeadline = TRUE
+  Prime = TRUE
+  MaxPub = 6
+  MaxRead = 4
   MaxStall = 2
-  MaxSweep = 2
+  MaxSweep = 3
   MaxLeave = 1
+  MaxPubB = 2
 INVARIANTS Quiescent QueueBound WholeUnits
 VIEW GView
-ACTION_CONSTRAINT Emit
